@@ -68,7 +68,7 @@ func perType(tier string) int {
 	if tier == "thorough" {
 		return 100000
 	}
-	return 1200
+	return 900
 }
 
 // Prop returns the C19 check.
